@@ -193,7 +193,10 @@ def case_fermion(ctx, rng):
     for _ in range(rng.randint(1, 3)):
         i, j = rng.sample(range(n_so), 2)
         c = rng.choice([0.3, -0.7, 1.1, 2.5])
-        op += FermionOperator(((i, 1), (j, 0)), c) + FermionOperator(((j, 1), (i, 0)), c)
+        if rng.random() < 0.4:
+            # complex hopping amplitude (Hermitian through the conjugate pair); complex with zero real part included
+            c = complex(rng.choice([0.0, 0.3, -0.7]), rng.choice([0.45, -0.9, 1.3]))
+        op += FermionOperator(((i, 1), (j, 0)), c) + FermionOperator(((j, 1), (i, 0)), np.conj(c))
     if rng.random() < 0.5:
         op += FermionOperator(((0, 1), (0, 0)), 0.4)
     mapping = rng.choice(["jw", "bk", "jkmn"])
